@@ -14,11 +14,20 @@ import (
 // what the statement requires and forbids.
 func C14Scenario() *Scenario {
 	return &Scenario{Prop: "C14", Init: func(w *World) {
-		t := w.T
-		if t.Pick(4, "ckind") == 3 {
+		if w.T.Pick(4, "ckind") == 3 {
 			c14Decorator(w)
 			return
 		}
+		c14Composite(w, "C14", false)
+	}}
+}
+
+// c14Composite is the round structure for a composite controller with a customize
+// hook. C15 reuses it (relatedOnly) for its clause "every object that appears in a
+// parent's related map also wakes that parent when it changes".
+func c14Composite(w *World, prop string, relatedOnly bool) {
+	{
+		t := w.T
 		s, _ := newCustomizeSetup(w)
 		cfg := s.Cfg
 		cfg.LabelSelector = Object{"matchLabels": Object{"managed": "yes"}}
@@ -74,6 +83,9 @@ func C14Scenario() *Scenario {
 					events := []string{"parent-spec", "parent-status", "parent-labels", "parent-unmanaged-edit", "child-edit", "child-delete", "child-status",
 						"orphan-create", "orphan-relabel", "foreign-child-edit", "wrong-uid-child", "wrong-kind-child", "related-edit", "related-relabel-away", "related-delete", "related-unselected-edit", "parent-create", "parent-delete",
 						"other-version-child", "related-edit-after-expiry", "parent-unmanage", "related-edit-after-expiry-customize-fails-for-another"}
+					if relatedOnly {
+						events = []string{"related-edit", "related-relabel-away", "related-delete", "related-edit-after-expiry", "related-edit-after-expiry-customize-fails-for-another"}
+					}
 					ev := events[w.T.Pick(len(events), "event")]
 					ex.name = ev
 					w.FaultsFired["event:"+ev]++
@@ -346,20 +358,20 @@ func C14Scenario() *Scenario {
 					}
 					sort.Strings(missing)
 					if len(missing) > 0 {
-						return &Violation{Prop: "C14", Class: "parent-not-woken", Sig: s2,
+						return &Violation{Prop: prop, Class: "parent-not-woken", Sig: s2,
 							Detail: fmt.Sprintf("after event %q (step %d) the parent(s) %v were not synced (synced: %v, queue adds: %d)", ex.name, ex.startStep, missing, keysOf(synced), adds)}
 					}
 					if ex.mustAdd && adds == 0 {
-						return &Violation{Prop: "C14", Class: "parent-not-queued", Sig: s2, Detail: fmt.Sprintf("after event %q (step %d) nothing was added to the queue", ex.name, ex.startStep)}
+						return &Violation{Prop: prop, Class: "parent-not-queued", Sig: s2, Detail: fmt.Sprintf("after event %q (step %d) nothing was added to the queue", ex.name, ex.startStep)}
 					}
 					for k := range ex.mustNot {
 						if synced[k] && !ex.mustSync[k] {
-							return &Violation{Prop: "C14", Class: "wrong-parent-woken", Sig: s2,
+							return &Violation{Prop: prop, Class: "wrong-parent-woken", Sig: s2,
 								Detail: fmt.Sprintf("event %q (step %d) must not wake parent %s, but it was synced", ex.name, ex.startStep, k)}
 						}
 					}
 					if ex.noAdd && adds > 0 {
-						return &Violation{Prop: "C14", Class: "spurious-enqueue", Sig: s2,
+						return &Violation{Prop: prop, Class: "spurious-enqueue", Sig: s2,
 							Detail: fmt.Sprintf("event %q (step %d) must enqueue nothing, but %d item(s) were added to %s", ex.name, ex.startStep, adds, queue)}
 					}
 					w.Probe("c14:round-ok:" + ex.name)
@@ -367,7 +379,7 @@ func C14Scenario() *Scenario {
 				}})
 		}
 		w.Stages = stages
-	}}
+	}
 }
 
 func keysOf(m map[string]bool) []string {
